@@ -47,13 +47,19 @@ PY
 SUITE=$?
 rm -f /tmp/sc/$ID-$V.json
 if [ $SUITE -ne 0 ]; then
-  # re-run only the failing packages once (load-induced flakes)
-  PKGS=$(grep NOT-PASSING $LOG | awk '{print $2}' | sed 's/::.*//' | sort -u | sed "s|github.com/icon-project/goloop|.|")
-  echo "== rerun: $PKGS" >> $LOG
-  if ! go test -vet=off -count=1 $PKGS >> $LOG 2>&1; then
-     # the demo itself lives in one of these packages and fails by design: exclude it
-     if go test -vet=off -count=1 -skip 'Seed|seed' $PKGS >> $LOG 2>&1; then SUITE=0; else fail "existing tests fail with the change"; fi
-  else SUITE=0; fi
+  # re-run only the tests that did not pass (load-induced flakes), by name, per package
+  SUITE=0
+  for PK in $(grep NOT-PASSING $LOG | awk '{print $2}' | sed 's/::.*//' | sort -u); do
+    TS=$(grep "NOT-PASSING $PK::" $LOG | awk '{print $2}' | sed 's/.*:://; s|/.*||' | sort -u | paste -sd'|')
+    REL=$(echo $PK | sed "s|github.com/icon-project/goloop|.|")
+    echo "== rerun $REL -run ^($TS)$" >> $LOG
+    ok=1
+    for try in 1 2 3; do
+      if go test -vet=off -count=1 -run "^($TS)\$" $REL >> $LOG 2>&1; then ok=0; break; fi
+    done
+    [ $ok -ne 0 ] && SUITE=1
+  done
+  [ $SUITE -ne 0 ] && fail "existing tests fail with the change"
 fi
 cd /
 git -C /repo worktree remove --force $WT
